@@ -92,6 +92,7 @@ class HResult:
         self.wall_s = 0.0
         self.loops = {}
         self.rss_mb = None
+        self.stubbed = False
 
     def to_json(self):
         return {
@@ -411,6 +412,7 @@ def classify(res):
 
 def run_harness(spec, info, work):
     res = HResult(spec)
+    res.stubbed = bool(info.get("stubs"))
     t0 = time.time()
     try:
         ok, msg = prepare_goto(info)
@@ -579,7 +581,13 @@ def playback(spec, res, work):
             modfile = os.path.join(pb_crate, "src", mod + ".rs")
             write(modfile, read(modfile) + "\n#[cfg(test)]\nmod verif_pb {\n    use super::*;\n" + gen_src + "}\n")
         if not tests:
-            return {"reproduced": False, "why": "kani produced no concrete playback test (its own verdict: %s)" % ("FAILED" if "VERIFICATION:- FAILED" in out else "not failed"), "log": logp, "test_src": ""}
+            kani_failed = "VERIFICATION:- FAILED" in out
+            same = [f["description"].strip('"')[:60] for f in res.failed if f["description"].strip('"')[:60] and f["description"].strip('"')[:60] in out]
+            if kani_failed and same and res.stubbed and "did not generate unit tests" in out:
+                # Kani 0.68 cannot generate playback tests for harnesses that use #[kani::stub]; its own driver
+                # (second pipeline: goto-instrument passes, result post-processing) confirms the same failing check
+                return {"reproduced": "solver-only", "why": "native playback unavailable for stubbed harnesses (Kani limitation); the failure was confirmed by cargo kani's own run on the same check", "log": logp, "test_src": "", "confirmed_checks": same}
+            return {"reproduced": False, "why": "kani produced no concrete playback test (its own verdict: %s)" % ("FAILED" if kani_failed else "not failed"), "log": logp, "test_src": ""}
         reproduced = []
         outputs = []
         for t in tests:
